@@ -48,6 +48,8 @@ type c05Group struct {
 	failedAt uint64
 	failWhy  string
 	successH uint64
+	// C06 for groups: statuses (global, children) at the end of the previous block
+	lastVec string
 }
 
 type c05Op struct {
@@ -71,11 +73,13 @@ type c05Run struct {
 	// non-triviality
 	failWithSucceededChild bool
 	sawTimeout, sawDup     bool
+	settledBeforeExpiry    bool // a group that was settled (failed or succeeded) before its timeout height reached that height
+	prop                   string
 }
 
 func (r *c05Run) logf(f string, a ...interface{}) { r.ops = append(r.ops, fmt.Sprintf(f, a...)) }
 func (r *c05Run) fail(f string, a ...interface{}) {
-	r.t.Fatalf("C05 violated: %s\nhistory:\n  %s", fmt.Sprintf(f, a...), strings.Join(r.ops, "\n  "))
+	r.t.Fatalf(r.prop+" violated: %s\nhistory:\n  %s", fmt.Sprintf(f, a...), strings.Join(r.ops, "\n  "))
 }
 
 func globalIDOf(from string, g *pb.StringUint64Map) string {
@@ -127,6 +131,7 @@ func (r *c05Run) seal() {
 	r.cur = nil
 	var d []string
 	succeededBefore := map[*c05Group][]*c05Child{} // children with an accepted success receipt before the failure event
+	touched := map[*c05Group]bool{}                // groups with an accepted begin or report in this block
 	for i, op := range ops {
 		op.accepted = rs[i].IsSuccess()
 		d = append(d, fmt.Sprintf("%s:%v", op.kind, op.accepted))
@@ -134,6 +139,7 @@ func (r *c05Run) seal() {
 			continue
 		}
 		g, c := op.g, op.c
+		touched[g] = true
 		switch op.kind {
 		case "begin":
 			c.begun = true
@@ -203,6 +209,51 @@ func (r *c05Run) seal() {
 			g.failedAt, g.failWhy = h, fmt.Sprintf("timeout at %d", h)
 			succeededBefore[g] = r.succeeded(g)
 			r.sawTimeout = true
+		}
+		// C06 for the group as a whole: the timeout mechanism acts at the timeout height of a group that is not settled
+		// by then, and never otherwise
+		timedOutNow := g.failedAt == h && strings.HasPrefix(g.failWhy, "timeout")
+		vec := stName[global]
+		for _, c := range g.children {
+			if c.begun {
+				st, _ := r.w.Status(c.id)
+				vec += " " + c.to + "=" + stName[st]
+			}
+			n := 0 // highest number of listings for one chain
+			for _, l := range meta.TimeoutCounter {
+				k := 0
+				for _, id := range l.Slice {
+					if id == c.id {
+						k++
+					}
+				}
+				if k > n {
+					n = k
+				}
+			}
+			if n > 0 && !timedOutNow {
+				why := "is not at its timeout height"
+				if g.e == h {
+					why = fmt.Sprintf("was settled before (failed at %d: %s; success at %d)", g.failedAt, g.failWhy, g.successH)
+				}
+				r.fail("child %s of group %s is listed in the timeout notifications of block %d although the group %s (first child accepted at %d, T=%d)", c.id, g.name, h, why, g.firstH, g.t)
+			}
+			if n > 1 {
+				r.fail("group %s timed out in block %d and its child %s is listed %d times in the timeout notifications of one chain", g.name, h, c.id, n)
+			}
+		}
+		if timedOutNow && global != stBEGINROLLBACK {
+			r.fail("group %s reached its timeout height %d unsettled but its global status is %s", g.name, h, stName[global])
+		}
+		if g.lastVec != "" && !touched[g] && !timedOutNow && vec != g.lastVec {
+			r.fail("statuses of group %s changed in block %d without an accepted request or receipt of the group and without a timeout: %s -> %s (first child accepted at %d, T=%d, failed at %d: %s)", g.name, h, g.lastVec, vec, g.firstH, g.t, g.failedAt, g.failWhy)
+		}
+		if g.e == h && !timedOutNow {
+			r.settledBeforeExpiry = true
+		}
+		g.lastVec = vec
+		if r.prop == "C06" {
+			continue
 		}
 		raw := r.rawGroup(g)
 		nSucc := len(r.succeeded(g))
@@ -295,11 +346,16 @@ func flatten(m map[string]*pb.StringSlice) string {
 	return "{" + strings.Join(out, " ") + "}"
 }
 
-func c05Property(t *rapid.T) {
+func c05Property(t *rapid.T) { groupProperty(t, "C05") }
+
+// c06GroupProperty: the same histories, deciding only the timeout clauses of C06 for a group as a whole.
+func c06GroupProperty(t *rapid.T) { groupProperty(t, "C06") }
+
+func groupProperty(t *rapid.T, prop string) {
 	audit := rapid.Bool().Draw(t, "audit")
 	w := sim.MultiWorld(audit).Instantiate("c05")
 	defer w.N.Destroy()
-	r := &c05Run{t: t, w: w, reqIdx: map[string]uint64{}}
+	r := &c05Run{t: t, w: w, reqIdx: map[string]uint64{}, prop: prop}
 	r.logf("world multi audit=%v height=%d", audit, w.N.Height())
 	type dest struct {
 		chain, svc string
@@ -388,7 +444,7 @@ func c05Property(t *rapid.T) {
 	}
 	r.seal()
 
-	st := sim.StatsFor("C05")
+	st := sim.StatsFor(prop)
 	var classes []string
 	nt := ""
 	big := false
@@ -412,8 +468,17 @@ func c05Property(t *rapid.T) {
 	if r.sawDup {
 		classes = append(classes, "duplicate-begin-or-report")
 	}
+	if r.settledBeforeExpiry {
+		classes = append(classes, "group-settled-before-its-timeout-height")
+	}
 	if big && r.failWithSucceededChild {
 		nt = strings.Join(r.ops, "\n")
+	}
+	if prop == "C06" {
+		nt = ""
+		if r.sawTimeout || r.settledBeforeExpiry {
+			nt = "groups/" + strings.Join(r.ops, "\n")
+		}
 	}
 	st.Case(nt, classes...)
 	if nt != "" && st.WantSample() {
@@ -421,4 +486,5 @@ func c05Property(t *rapid.T) {
 	}
 }
 
-func TestC05(t *testing.T) { rapid.Check(t, c05Property) }
+func TestC05(t *testing.T)       { rapid.Check(t, c05Property) }
+func TestC06Groups(t *testing.T) { rapid.Check(t, c06GroupProperty) }
